@@ -205,10 +205,36 @@ theorem C16_partial {t : Table} {e : Entry} (hc : Consistent t) (hl : Live t e) 
     forwarded on the tunnel's own leg and never reach the exit handler: the relay table, which is
     disambiguated by source peer, is consulted first. -/
 theorem C16_relay_frames_never_reach_exit (n : Node) {e : Entry} (hc : Consistent n.a.tcp) (hl : Live n.a.tcp e)
-    (serial : Nat) :
-    n.data e.upPeer e.upId serial = (n, [⟨e.downPeer, "data", e.downId⟩], []) := by
+    (serial : Nat) (payload : String) :
+    n.data e.upPeer e.upId serial payload = (n, [⟨e.downPeer, "data", e.downId, payload⟩], []) := by
   have := (C16_partial hc hl).1
   simp [Node.data, this]
+
+/-- **Byte-exact relaying.**  Whatever a transit forwards for a data / ack / err frame carries exactly
+    the payload (and flags) it received — nothing is truncated, duplicated or rewritten, and exactly one
+    frame goes out. -/
+theorem C16_relay_payload_unchanged (a : Agent) (k : Kind) (peer id : Nat) (payload : String) :
+    (∀ r, a.relayData k peer id payload = some r → ∃ q j, r.2 = [⟨q, "data", j, payload⟩]) ∧
+    (∀ r, a.relayAck k peer id payload = some r → ∃ q j, r.2 = [⟨q, "ack", j, payload⟩]) ∧
+    (∀ r, a.relayErr k peer id payload = some r → ∃ q j, r.2 = [⟨q, "err", j, payload⟩]) := by
+  refine ⟨?_, ?_, ?_⟩
+  · intro r h
+    unfold Agent.relayData at h
+    split at h
+    · next q j _ => injection h with h; subst h; exact ⟨q, j, rfl⟩
+    · cases h
+  · intro r h
+    unfold Agent.relayAck at h
+    split at h
+    · split at h
+      · next e _ _ => injection h with h; subst h; exact ⟨e.upPeer, e.upId, rfl⟩
+      · cases h
+    · cases h
+  · intro r h
+    unfold Agent.relayErr at h
+    split at h
+    · next t e _ => injection h with h; subst h; exact ⟨e.upPeer, e.upId, rfl⟩
+    · cases h
 
 /-- … and a frame no relay entry claims is handled by the exit handler alone (the relay tables are
     untouched). -/
